@@ -116,9 +116,36 @@ for _t in ESCAPES:
     FROM_TEXT.append("from t1 | derive {x = %s} | select {id, x}" % _t)
 
 
+# s-strings used as relations: the compiler inspects the text itself (it must start with SELECT, the prefix is cut at a
+# fixed length, columns are inferred by parsing it) - multi-byte characters at every early position, texts shorter
+# than the prefix, other casings / leading blanks / other statement kinds, in every place a relation can stand
+def sstring_relations():
+    texts = []
+    base = "SELECT * FROM t1"
+    for ch in ("\u00e9", "\u00a0", "\u201c", "\u4e2d", "\U0001f600"):
+        for pos in range(0, 11):
+            texts.append(base[:pos] + ch + base[pos:])
+    texts += ["SELECT * FROM t1", "select * from t1", "  SELECT 1 AS a", "\nSELECT 1 AS a", "SELECTED", "SELECT", "SELEC", "S", "", " ", "(SELECT 1 AS a)",
+              "WITH x AS (SELECT 1 AS a) SELECT * FROM x", "VALUES (1)", "\u65e5\u672c\u8a9e\u306e\u8868", "\u00e9\u00e9\u00e9\u00e9\u00e9\u00e9\u00e9", "\U0001f600\U0001f600",
+              "SELECT [a], [b] FROM t1", "SELECT `a`, `b` FROM t1", "SELECT \\\"a\\\" FROM t1", "SELECT a AS \u00e9 FROM t1", "SELECT a, FROM", "SELECT 'x' AS \u4e2d\u6587",
+              "SELECT * FROM t1 -- c", "SELECT /* \u00e9 */ 1 AS a"]
+    out = []
+    for t in texts:
+        out.append('from s"%s"' % t)
+        out.append('from t1 | select {id} | append s"%s"' % t)
+        out.append('let x = s"%s"\nfrom x | take 1' % t)
+        out.append('from t1 | join side:left y = s"%s" (t1.id == y.id) | select {t1.id}' % t)
+    out.append('from s"SELECT {1 + 1} AS a"')
+    out.append('from s"SELECT\u00a0{1} AS a"')
+    out.append('from s"{1}"')
+    return out
+
+
 def programs():
     """-> list of (tag, source)"""
     out = []
+    for m in sstring_relations():
+        out.append(("sstring_relation", m))
     for t in time_forms():
         out.append(("time", "from t1 | derive {x = @%s}" % t))
     for t in time_forms()[:40]:
